@@ -825,7 +825,7 @@ func (c *Client) CreateSession(ctx context.Context, cfg *uasc.SessionConfig) (*S
 		err := sc.VerifySessionSignature(res.ServerCertificate, nonce, res.ServerSignature.Signature)
 		if err != nil {
 			log.Printf("error verifying session signature: %s", err)
-			return nil
+			return errors.Errorf("opcua: server session signature verification failed: %s", err)
 		}
 
 		// Ensure we have a valid identity token that the server will accept before trying to activate a session
@@ -886,10 +886,13 @@ func (c *Client) ActivateSession(ctx context.Context, s *Session) error {
 		return ua.StatusBadServerNotConnected
 	}
 	stats.Client().Add("ActivateSession", 1)
+	if s == nil {
+		return errors.Errorf("opcua: cannot activate a nil session")
+	}
 	sig, sigAlg, err := sc.NewSessionSignature(s.serverCertificate, s.serverNonce)
 	if err != nil {
 		log.Printf("error creating session signature: %s", err)
-		return nil
+		return err
 	}
 
 	switch tok := s.cfg.UserIdentityToken.(type) {
